@@ -791,7 +791,7 @@ def correspond(tier, seed, model_ok):
     out.distribution["prefix_denom_histories(oracle only)"] = len(pcases)
     out.rule = ("cases = histories of 20-%d lockup operations (lock / add-to-lock / extend / full and partial begin-unlock / begin-unlock-all / unlock / "
                 "withdraw-matured / end-block / set-reward-receiver / force-unlock / block-time advance) by 3 owners over 3 denominations and 4 durations, "
-                "about 1 in 12 deliberately malformed; non-trivial = at least one successful lock, one successful begin-unlock and one lock released "
+                "one history in four from a genesis with 1-6 locks (InitializeAllLocks), an occasional RebuildAccumulationStoreForDenom, about 1 in 12 operations deliberately malformed; non-trivial = at least one successful lock, one successful begin-unlock and one lock released "
                 "after maturity or by force; distinct = distinct case JSON" % (80 if tier == "quick" else 120))
     out.samples = [{"t0": c["t0"], "durs": c["durs"], "fund": c["fund"], "force": c["force"], "ops": [{k: v for k, v in o.items() if k != "q"} for o in c["ops"][:8]]} for c in cases[:3]]
     out.distribution["histories"] = len(cases)
@@ -855,12 +855,12 @@ def replay(path):
     return 1 if (out.oracle_violations or out.mismatches) else 0
 
 
-SCOPE = ("full for the modelled scope: all 20 theorems of Properties/C06.v are proved for every history of the eleven modelled operations (axiom-free): "
+SCOPE = ("full for the modelled scope: all 21 theorems of Properties/C06.v are proved for every history of the eleven modelled operations (axiom-free): "
          "module balance = sum of live locks; accumulation(>= d) = sum over live locks for every denomination and d >= 0; reference entries exact and every "
          "iterator = definitional filter (store.go composites = concatenation of their iterators, never failing); conservation; owner-only / not-early "
          "(balance growth per operation bounded by the account's own matured locks, force-unlock guarded by owner + allow-list); lawful evolution of every "
          "lock record (end time set once to block time + duration); per-lock release only when matured, and the trace-level time-lock (release time >= "
-         "begin-unlock block time + duration); split preserves sum/owner/duration with a fresh id. Not modelled: synthetic locks "
+         "begin-unlock block time + duration); the same from any well-formed genesis with locks (InitializeAllLocks); split preserves sum/owner/duration with a fresh id. Not modelled: synthetic locks "
          "(C11), multi-coin locks, CL share denominations, the sum-tree behind the accumulation store (C16)")
 EXPLANATION = ("Theorems over the Gallina model C06/Model.v (lockup keeper + msg server + EndBlocker over a small bank, reference indexes as the set of "
                "(structured key, id) store entries, accumulation store as a sorted map) by invariants over operation histories with monotone block times. "
@@ -955,8 +955,8 @@ def selftest(seed=1, n=6):
         if i == 2:
             codes[3] = 0 if codes[3] else 2
         if i == 3:
-            for op in c2["ops"]:
-                if op["k"] == "lock" and op["amt"] > 0:
+            for op, code in zip(c2["ops"], codes):
+                if op["k"] == "lock" and op["amt"] > 0 and code == 0:
                     op["amt"] += 1
                     break
         body.append(coq_case(c2, [x for p in zip(codes, hs) for x in p]))
